@@ -219,6 +219,14 @@ Fixpoint mism (i : N) (l : list gcase) : list (N * N) :=
   end.
 Definition mismatches (l : list gcase) : list (N * N) := mism 0 l.
 
+(* cases on which Go differs from the model of the pinned snapshot *)
+Fixpoint mism_orig (i : N) (l : list gcase) : list (N * N) :=
+  match l with
+  | [] => []
+  | x :: t => if impl_orig_ok x then mism_orig (i + 1) t else (i, 1) :: mism_orig (i + 1) t
+  end.
+Definition mismatches_orig (l : list gcase) : list (N * N) := mism_orig 0 l.
+
 (* diagnostics for replay files / debugging *)
 Definition explain (cs : gcase) : result * list string :=
   match cs with GC f m go gm => (run_impl fixed f m, failing (conditions_of f m)) end.
